@@ -18,6 +18,8 @@ type Term struct {
 const prelude = `(define-sort F64 () (_ FloatingPoint 11 53))
 (define-sort F32 () (_ FloatingPoint 8 24))
 ;;FPDEFS
+(declare-fun eidx (Int Int) Int)
+(assert (forall ((o Int) (k Int)) (! (= (eidx o k) (+ o k)) :pattern ((eidx o k)))))
 `
 
 const fpPrecise = `(define-fun fadd ((a F64) (b F64)) F64 (fp.add RNE a b))
